@@ -24,9 +24,7 @@ use serde_json::json;
 use std::io::{BufRead, Write};
 use std::time::Duration;
 
-#[cfg(c12_serde_state)]
 extern crate serde_state;
-#[cfg(c12_serde_state)]
 use serde_state::ser::SerializeState;
 
 // ------------------------------------------------------------------------------------------
@@ -180,6 +178,23 @@ fn run_bc(vm: &Thread, name: &str, bytes: &[u8]) -> Result<String, String> {
     }
 }
 
+/// Symbols print as `Pointer { addr: 0x…, metadata: n }:name`; drop the address part.
+fn scrub(s: &str) -> String {
+    let mut out = String::with_capacity(s.len());
+    let mut rest = s;
+    while let Some(i) = rest.find("Pointer { addr: 0x") {
+        out.push_str(&rest[..i]);
+        match rest[i..].find("}:") {
+            Some(j) => rest = &rest[i + j + 2..],
+            None => {
+                rest = &rest[i + 10..];
+            }
+        }
+    }
+    out.push_str(rest);
+    out
+}
+
 /// Debug rendering of the compiled module as produced by the compiler …
 fn module_debug_compiled(vm: &Thread, name: &str, src: &str) -> Result<String, String> {
     let r = gv::catch(|| {
@@ -190,7 +205,7 @@ fn module_debug_compiled(vm: &Thread, name: &str, src: &str) -> Result<String, S
             src,
             None,
         ))
-        .map(|cv| format!("{:?} :: {:?} :: {:?}", cv.module, cv.typ, cv.metadata))
+        .map(|cv| scrub(&format!("{:?} :: {:?} :: {:?}", cv.module, cv.typ, cv.metadata)))
         .map_err(|e| e.to_string())
     });
     match r {
@@ -204,7 +219,7 @@ fn module_debug_loaded(vm: &Thread, bytes: &[u8]) -> Result<String, String> {
     let r = gv::catch(|| {
         let mut de = serde_json::Deserializer::from_slice(bytes);
         let m: Result<Module, _> = DeSeed::new(vm, &mut vm.current_context()).deserialize(&mut de);
-        m.map(|m| format!("{:?} :: {:?} :: {:?}", m.module, m.typ, m.metadata))
+        m.map(|m| scrub(&format!("{:?} :: {:?} :: {:?}", m.module, m.typ, m.metadata)))
             .map_err(|e| e.to_string())
     });
     match r {
@@ -1015,11 +1030,6 @@ fn token_starts(b: &[u8], n: &JNode, out: &mut Vec<usize>) {
     }
 }
 
-#[cfg(not(c12_serde_state))]
-fn ser_value(_v: Variants) -> Result<Vec<u8>, String> {
-    Err("serde_state not linked".into())
-}
-#[cfg(c12_serde_state)]
 fn ser_value(v: Variants) -> Result<Vec<u8>, String> {
     let mut buffer = Vec::new();
     {
@@ -1343,11 +1353,11 @@ fn stream_c(out: &mut Out, rng: &mut Rng, n_progs: usize) {
 /// stdin lines: `<flags> <hex json>`; flags: `p` prelude VM, `h` helper module defined, `-` none.
 /// stdout: one line per case `R <n> ok|err|panic <detail>`.
 fn child_load() {
-    let stdin = std::io::stdin();
+    // read everything first: the parent writes all of stdin before it starts reading our stdout
+    let lines: Vec<String> = std::io::stdin().lock().lines().map(|l| l.unwrap()).collect();
     let mut vms: std::collections::HashMap<String, (RootedThread, u32)> = Default::default();
     let so = std::io::stdout();
-    for (n, line) in stdin.lock().lines().enumerate() {
-        let line = line.unwrap();
+    for (n, line) in lines.into_iter().enumerate() {
         let mut it = line.splitn(2, ' ');
         let flags = it.next().unwrap().to_string();
         let hex = it.next().unwrap_or("");
